@@ -77,7 +77,7 @@ func hShape(set ast.SelectionSet) string {
 	r := "{"
 	for _, sel := range set {
 		if f, ok := sel.(*ast.Field); ok {
-			r += " " + f.Name + hShape(f.SelectionSet)
+			r += " " + f.Alias + ":" + f.Name + hShape(f.SelectionSet)
 		}
 	}
 	return r + " }"
@@ -136,6 +136,22 @@ var hDocs = []hDoc{
 	{`{ user(id: "a b") { name } }`, "", "query", ""},
 	{"{ me { id #x\n name } }", "", "query", ""},
 	{"{ me { id #x name\n } }", "", "query", ""},
+	// pairs of texts that collide under the 32-bit checksums of the standard library (CRC-32 IEEE / Castagnoli, FNV-1 / FNV-1a, Adler-32):
+	// whatever a cache does with its keys, two different texts are two different documents
+	{`{ a1u3nvvr: me { name } }`, "", "query", ""},
+	{`{ am81smq: me { name } }`, "", "query", ""},
+	{`{ ar7x0hu2: me { name } }`, "", "query", ""},
+	{`{ aurp9kcn: me { name } }`, "", "query", ""},
+	{`{ avy8hpwr: me { name } }`, "", "query", ""},
+	{`{ ak04dnr1: me { name } }`, "", "query", ""},
+	{`{ a17li267o: me { name } }`, "", "query", ""},
+	{`{ a129dm0ay: me { name } }`, "", "query", ""},
+	{`{ aafw59hc: me { name } }`, "", "query", ""},
+	{`{ a7zacnd0: me { name } }`, "", "query", ""},
+	// documents that break a validation rule other than "unknown field"
+	{`{ me { name(bogus: 1) } }`, "", "", ""},
+	{`query ($x: Int) { me { name } }`, "", "", ""},
+	{`{ me { name @nope } }`, "", "", ""},
 	{``, "", "", ""}, // no query at all (kept last)
 }
 
@@ -235,11 +251,17 @@ func Harness_C09_http() {
 	// 0 GET, 1 POST application/json, 2 POST application/graphql, 3 POST urlencoded form, 4 POST multipart form
 	tr := zzsym.Choice("method", 2+zzsym.Param("forms", 0)*3)
 	get := tr == 0
+	badUpload := false // multipart form: the map names a place for a file that does not exist (the request is refused whatever the document)
+	// the option changes the text of one validation message, nothing else
+	nosuggest := zzsym.Param("forms", 0) == 1 && zzsym.Choice("nosuggest", 2) == 1
 	defsrv := zzsym.Param("forms", 0) == 1 && zzsym.Choice("server", 2) == 1
 	if defsrv {
 		// the documented example server (websocket, OPTIONS, GET, POST, multipart form; LRU query cache, introspection, APQ)
 		zzsym.Assume(rhi == 0 && (tr == 0 || tr == 1 || tr == 4))
 		srv = NewDefaultServer(es)
+	}
+	if nosuggest {
+		srv.SetDisableSuggestion(true)
 	}
 	r := &http.Request{Header: http.Header{}, URL: &url.URL{Path: "/query"}}
 	if acc.header != "" {
@@ -274,7 +296,17 @@ func Harness_C09_http() {
 	case 4:
 		r.Method = "POST"
 		r.Header.Set("Content-Type", "multipart/form-data; boundary=B")
-		r.Body = io.NopCloser(strings.NewReader("--B\r\nContent-Disposition: form-data; name=\"operations\"\r\n\r\n" + hJSONBody(d) + "\r\n--B\r\nContent-Disposition: form-data; name=\"map\"\r\n\r\n{}\r\n--B--\r\n"))
+		// no file / one file mapped to a variable / to two places of which the second does not exist / to a path outside the variables
+		up := zzsym.Choice("upload", 4)
+		ops := hJSONBody(d)
+		ops = ops[:len(ops)-1] + `,"variables":{"f":null,"g":{"h":null}}}`
+		m := []string{`{}`, `{"0":["variables.f"]}`, `{"0":["variables.g.h","variables.nope.x.y"]}`, `{"0":["query"]}`}[up]
+		body := "--B\r\nContent-Disposition: form-data; name=\"operations\"\r\n\r\n" + ops + "\r\n--B\r\nContent-Disposition: form-data; name=\"map\"\r\n\r\n" + m + "\r\n"
+		if up > 0 {
+			body += "--B\r\nContent-Disposition: form-data; name=\"0\"; filename=\"a.txt\"\r\nContent-Type: text/plain\r\n\r\nhello\r\n"
+		}
+		r.Body = io.NopCloser(strings.NewReader(body + "--B--\r\n"))
+		badUpload = up >= 2
 		if !defsrv {
 			srv.AddTransport(transport.MultipartForm{ResponseHeaders: hRespHdrs[rhi].hdr})
 		}
@@ -299,6 +331,11 @@ func Harness_C09_http() {
 	zzsym.Assert(ct == wantCT, "Content-Type is the configured one, else the one negotiated from Accept")
 
 	executed := len(es.execs) > 0
+	if badUpload {
+		zzsym.Assert(!executed && w.status == 422, "a file mapped to a place that does not exist: refused (422), nothing executes")
+		zzsym.Reach("http.refused")
+		return
+	}
 	if get {
 		zzsym.Assert(!executed || d.kind == "query", "GET executes only query operations")
 	}
